@@ -323,8 +323,13 @@ def run_files(spec):
                 return Out(ok=False, msg="type-2 FORCE_SETS round trip changes data beyond the %%15.8f half-ulp (magnitude 1e%d)" % spec["logmag"])
         else:
             compact = kind.endswith("compact")
-            npr = max(1, n // 2) if compact else n
-            p2s = np.arange(npr, dtype="intc") * (n // npr) if compact else None
+            if compact:
+                # realistic index maps: up to 8 primitive atoms, up to 12 lattice points, images stored block-wise ([0, 12, 24, ...])
+                npr, nlat = int(rng.integers(1, 9)), int(rng.integers(1, 13))
+                n = npr * nlat
+                p2s = np.arange(npr, dtype="intc") * nlat
+            else:
+                npr, p2s = n, None
             fc = vals((npr, n, 3, 3))
             try:
                 if kind.startswith("hdf5"):
@@ -340,7 +345,7 @@ def run_files(spec):
             ok, dd = close(back, fc, half) if half else (np.array_equal(back, fc), 0.0)
             if not ok:
                 return Out(ok=False, msg="%s round trip changes the force constants (excess %.2e, magnitude 1e%d)" % (kind, dd, spec["logmag"]))
-    return Out(ok=True, nontrivial=True, classes=[kind, "mag:1e%d" % spec["logmag"], spec["sign"]])
+    return Out(ok=True, nontrivial=True, classes=[kind, "mag:1e%d" % spec["logmag"], spec["sign"]] + (["nprim>=5"] if kind.endswith("compact") and npr >= 5 else []))
 
 
 # ----------------------------------------------------------------------- BORN
